@@ -50,6 +50,11 @@ def run(run):
         for back in (1, 2, 3, 5):
             for d in (1, -1):
                 sc += "Reset\nQWalk %d %d\nQWalk %d %d\nWalk 6 %d 0\n" % (4 * clicks, d, back, -d, d)
+    # fast steady rotation (no sample repeated) of every length around 8-bit run-length limits, ended by a two-bit jump
+    for n in (list(range(1, 12)) + [31, 32, 33, 63, 64, 65, 119, 120, 121, 122, 123, 124, 127, 128, 129, 130, 200, 255, 256, 257, 258, 300, 511, 512, 513, 1000,
+                                     32767, 32768, 32769, 65535, 65536, 65537, 70000]):
+        for d in (1, -1):
+            sc += "Reset\nSpin %d %d\n" % (n, d)
     sc += "Reset\nRandom %d %d\n" % (run.seed, 600000 if run.thorough() else 60000)
     tr = exec_script(run, exe, [], sc, run.path("walk.ndjson"), "walks", timeout=600)
     check_trace(run, "walks", "TraceRotenc", "TraceRotenc.cfg", tr, timeout=1500)
